@@ -549,6 +549,15 @@ class StateMachine:
         should_engage = self.__should_engage
         self.execute()
         self.__should_engage = should_engage
+        if (
+            not self.__engaged
+            and self.__default_state is None
+            and self.__state is not None
+        ):
+            # the machine is stopped and nobody asked it to run, so the nested
+            # execute() did nothing: do not leave a state selected
+            self.__state = None
+            self.current_state = ""
 
     def done(self) -> None:
         """Call this function to end execution of the state machine.
